@@ -2162,7 +2162,7 @@ fn evaluate_scalar_func(
                     .map(|opt| {
                         opt.map(|days| {
                             let date = date32_to_naive(days).unwrap_or_default();
-                            date.weekday().num_days_from_sunday() as i32 + 1
+                            date.weekday().num_days_from_monday() as i32 + 1
                         })
                     })
                     .collect();
